@@ -40,13 +40,19 @@ struct CbSink {
     sched: SchedState,
     calls: u64,
     fail_at: Option<u64>,
+    /// how a failing call looks: 0 = error code, count untouched; 1 = part of the buffer stored AND reported, then the
+    /// error code (what the project's own C samples do on ferror); 2 = whole length reported, nothing stored, error code
+    fail_style: u8,
+    /// the failure happens once (call == k) instead of from call k on
+    fail_once: bool,
+    failures: u64,
     flushes: u64,
     flush_fails: bool,
 }
 
 impl CbSink {
     fn new(s: &Sched, fail_at: Option<u64>) -> Box<CbSink> {
-        Box::new(CbSink { data: Vec::new(), sched: SchedState::new(s), calls: 0, fail_at, flushes: 0, flush_fails: false })
+        Box::new(CbSink { data: Vec::new(), sched: SchedState::new(s), calls: 0, fail_at, fail_style: 0, fail_once: false, failures: 0, flushes: 0, flush_fails: false })
     }
 }
 
@@ -54,8 +60,22 @@ extern "C" fn write_cb(buffer: *const u8, len: u32, ctx: *mut c_void, written: *
     let s = unsafe { &mut *(ctx.cast::<CbSink>()) };
     let call = s.calls;
     s.calls += 1;
-    if s.fail_at.is_some_and(|k| call >= k) {
+    if s.fail_at.is_some_and(|k| if s.fail_once { call == k } else { call >= k }) {
         seams::fired("c_write_callback_failure");
+        s.failures += 1;
+        match s.fail_style {
+            1 if len > 0 => {
+                seams::fired("c_write_callback_failure_with_count");
+                let n = (len as usize / 2).max(1);
+                s.data.extend_from_slice(unsafe { std::slice::from_raw_parts(buffer, n) });
+                unsafe { *written = n as u32 };
+            }
+            2 if len > 0 => {
+                seams::fired("c_write_callback_failure_with_count");
+                unsafe { *written = len };
+            }
+            _ => {}
+        }
         return 5; // EIO
     }
     if len == 0 {
@@ -96,6 +116,8 @@ struct CbSource {
     decline: Vec<String>,
     file_sink_sched: Sched,
     file_sink_fail: Option<u64>,
+    file_fail_style: u8,
+    file_fail_once: bool,
     file_cb_calls: u64,
 }
 
@@ -158,7 +180,9 @@ extern "C" fn file_cb(ctx: *mut c_void, name: *const u8, name_len: usize, fw: *m
         return 1;
     }
     let first = s.files.is_empty();
-    let sink = CbSink::new(&s.file_sink_sched, if first { s.file_sink_fail } else { None });
+    let mut sink = CbSink::new(&s.file_sink_sched, if first { s.file_sink_fail } else { None });
+    sink.fail_style = s.file_fail_style;
+    sink.fail_once = s.file_fail_once;
     let e = s.files.entry(n).or_insert(sink);
     let p: *mut CbSink = &mut **e;
     unsafe {
@@ -178,6 +202,7 @@ struct CWrite {
     image: Vec<u8>,
     new_status: u64,
     close_status: Option<u64>,
+    cb_failures: u64,
 }
 
 /// Express a writer history through the C entry points
@@ -186,9 +211,15 @@ fn c_write(case: &Case, sink_sched: &Sched, fail_at: Option<u64>) -> CWrite {
 }
 
 fn c_write_opts(case: &Case, sink_sched: &Sched, fail_at: Option<u64>, flush_fails: bool) -> CWrite {
-    let mut out = CWrite { statuses: Vec::new(), image: Vec::new(), new_status: OK, close_status: None };
+    c_write_styled(case, sink_sched, fail_at, flush_fails, 0, false)
+}
+
+fn c_write_styled(case: &Case, sink_sched: &Sched, fail_at: Option<u64>, flush_fails: bool, fail_style: u8, fail_once: bool) -> CWrite {
+    let mut out = CWrite { statuses: Vec::new(), image: Vec::new(), new_status: OK, close_status: None, cb_failures: 0 };
     let mut sink = CbSink::new(sink_sched, fail_at);
     sink.flush_fails = flush_fails;
+    sink.fail_style = fail_style;
+    sink.fail_once = fail_once;
     let ctx: *mut c_void = (&mut *sink as *mut CbSink).cast();
     let mut cfg: c::MLAConfigHandle = null_mut();
     assert_eq!(st(c::mla_config_default_new(&mut cfg)), OK);
@@ -207,6 +238,7 @@ fn c_write_opts(case: &Case, sink_sched: &Sched, fail_at: Option<u64>, flush_fai
     let mut archive: c::MLAArchiveHandle = null_mut();
     out.new_status = st(c::mla_archive_new(&mut cfg, Some(write_cb), Some(flush_cb), ctx, &mut archive));
     if out.new_status != OK {
+        out.cb_failures = sink.failures;
         out.image = std::mem::take(&mut sink.data);
         return out;
     }
@@ -262,8 +294,10 @@ fn c_write_opts(case: &Case, sink_sched: &Sched, fail_at: Option<u64>, flush_fai
     }
     if !archive.is_null() {
         // release the writer even when the history did not finalize (failed callbacks)
-        let _ = c::mla_archive_close(&mut archive);
+        let s = st(c::mla_archive_close(&mut archive));
+        out.close_status = Some(s);
     }
+    out.cb_failures = sink.failures;
     out.image = std::mem::take(&mut sink.data);
     out
 }
@@ -272,10 +306,11 @@ struct CExtract {
     status: u64,
     got: BTreeMap<String, Vec<u8>>,
     file_cb_calls: u64,
+    sink_failures: u64,
 }
 
 fn c_extract(case: &Case, image: &[u8], src_sched: &Sched, file_sched: &Sched, fail_read: Option<u64>, file_fail: Option<u64>, decline: Vec<String>, with_key: bool) -> CExtract {
-    let mut src = Box::new(CbSource { image: image.to_vec(), pos: 0, sched: SchedState::new(src_sched), reads: 0, fail_read_at: fail_read, files: BTreeMap::new(), decline, file_sink_sched: file_sched.clone(), file_sink_fail: file_fail, file_cb_calls: 0 });
+    let mut src = Box::new(CbSource { image: image.to_vec(), pos: 0, sched: SchedState::new(src_sched), reads: 0, fail_read_at: fail_read, files: BTreeMap::new(), decline, file_sink_sched: file_sched.clone(), file_sink_fail: file_fail, file_fail_style: (case.param("fail_style", 0) as u8), file_fail_once: case.param("fail_once", 0) == 1, file_cb_calls: 0 });
     let ctx: *mut c_void = (&mut *src as *mut CbSource).cast();
     let mut cfg: c::MLAConfigHandle = null_mut();
     assert_eq!(st(c::mla_reader_config_new(&mut cfg)), OK);
@@ -285,7 +320,8 @@ fn c_extract(case: &Case, image: &[u8], src_sched: &Sched, file_sched: &Sched, f
     }
     let status = st(c::mla_roarchive_extract(&mut cfg, Some(read_cb), Some(seek_cb), Some(file_cb), ctx));
     let got = src.files.iter().map(|(k, v)| (k.clone(), v.data.clone())).collect();
-    CExtract { status, got, file_cb_calls: src.file_cb_calls }
+    let sink_failures = src.files.values().map(|f| f.failures).sum();
+    CExtract { status, got, file_cb_calls: src.file_cb_calls, sink_failures }
 }
 
 /// one null / cleared-handle call; returns (description, status)
@@ -397,7 +433,7 @@ fn null_case(k: i64, case: &Case) -> (String, u64) {
         19 => ("mla_roarchive_extract(NULL config pointer, ..)".into(), st(c::mla_roarchive_extract(null_mut(), Some(read_cb), Some(seek_cb), Some(file_cb), null_mut()))),
         20 => {
             // reader config handle cleared by a first extraction
-            let mut src = Box::new(CbSource { image: vec![], pos: 0, sched: SchedState::new(&Sched::Full), reads: 0, fail_read_at: None, files: BTreeMap::new(), decline: vec![], file_sink_sched: Sched::Full, file_sink_fail: None, file_cb_calls: 0 });
+            let mut src = Box::new(CbSource { image: vec![], pos: 0, sched: SchedState::new(&Sched::Full), reads: 0, fail_read_at: None, files: BTreeMap::new(), decline: vec![], file_sink_sched: Sched::Full, file_sink_fail: None, file_fail_style: 0, file_fail_once: false, file_cb_calls: 0 });
             let sctx: *mut c_void = (&mut *src as *mut CbSource).cast();
             let mut cfg: c::MLAConfigHandle = null_mut();
             let _ = c::mla_reader_config_new(&mut cfg);
@@ -430,7 +466,7 @@ impl Prop for C20 {
         "exploration"
     }
     fn rule(&self) -> String {
-        "run kinds. create: a seeded valid writer history (as C01, names without NUL) expressed through mla_config_* / mla_archive_* with a simulated write callback that accepts 1 byte, 1..n bytes or everything per call; the bytes collected by the callback must be an archive the Rust reader (prod build) reads back to the abstract model. extract: the archive goes through mla_roarchive_extract with simulated read/seek callbacks (1 byte, 1..n per read) and a file callback handing out one simulated writer per file (splitting schedules), declining a seeded subset: every accepted writer holds exactly the model's bytes, declined names receive nothing. failures: write callback failing from its k-th call (some call of the history or the final close must return a non-success status), read callback failing at its k-th call, the first per-file writer failing at its k-th call, flush callback failing, missing private key: the status must not be success. null: each of 24 calls with a NULL handle, NULL out-pointer, NULL callback or a handle the interface itself cleared on release (config after mla_archive_new / mla_roarchive_extract, file after close, archive after close, double close) must return a non-success status; the worker process must survive. distinct_nontrivial = distinct (kind, recipients, schedule kinds, failure placement, outcome) signatures.".into()
+        "run kinds. create: a seeded valid writer history (as C01, names without NUL) expressed through mla_config_* / mla_archive_* with a simulated write callback that accepts 1 byte, 1..n bytes or everything per call; the bytes collected by the callback must be an archive the Rust reader (prod build) reads back to the abstract model. extract: the archive goes through mla_roarchive_extract with simulated read/seek callbacks (1 byte, 1..n per read) and a file callback handing out one simulated writer per file (splitting schedules), declining a seeded subset: every accepted writer holds exactly the model's bytes, declined names receive nothing. failures: write callback failing from its k-th call on or ONLY at its k-th call, in three styles - error code with the count untouched; part of the buffer stored and reported, then the error code (what the project's own C samples do on ferror); whole length reported, nothing stored, error code - (whenever the callback did return a failure code, some call of the history or the final close must return a non-success status), read callback failing at its k-th call, the first per-file writer failing at its k-th call (same styles, same exact criterion), flush callback failing, missing private key: the status must not be success. null: each of 24 calls with a NULL handle, NULL out-pointer, NULL callback or a handle the interface itself cleared on release (config after mla_archive_new / mla_roarchive_extract, file after close, archive after close, double close) must return a non-success status; the worker process must survive. distinct_nontrivial = distinct (kind, recipients, schedule kinds, failure placement, outcome) signatures.".into()
     }
     fn assumptions(&self) -> Vec<String> {
         vec![
@@ -488,6 +524,8 @@ impl Prop for C20 {
         case.params.insert("decline_mask".into(), if rng.chance(1, 2) { rng.below(32) as i64 } else { 0 });
         case.params.insert("fail_kind".into(), rng.below(5) as i64);
         case.params.insert("fail_at".into(), rng.range(0, 30) as i64);
+        case.params.insert("fail_style".into(), rng.below(3) as i64);
+        case.params.insert("fail_once".into(), i64::from(rng.chance(1, 2)));
         case
     }
     fn exec(&self, case: &Case, ctx: &mut Ctx) -> Vec<Violation> {
@@ -590,12 +628,18 @@ impl Prop for C20 {
                     let _ = &mut probe;
                     at
                 };
-                let r = guard(|| c_write(case, &case.sink, Some(total_calls)));
+                let style = case.param("fail_style", 0) as u8;
+                let once = case.param("fail_once", 0) == 1;
+                let r = guard(|| c_write_styled(case, &case.sink, Some(total_calls), false, style, once));
                 ctx.eval();
                 match r {
                     Err(p) => v.push(Violation::new("c-api-panic", "write-callback-failure", format!("panic with a failing write callback: {p}"))),
                     Ok(wf) => {
-                        let any_err = wf.new_status != OK || wf.statuses.iter().any(|s| *s != OK);
+                        let any_err = wf.new_status != OK || wf.statuses.iter().any(|s| *s != OK) || wf.close_status.is_some_and(|s| s != OK);
+                        // exact form: the callback DID return a failure code at least once
+                        if wf.cb_failures > 0 && !any_err {
+                            v.push(Violation::new("c-failure-reported-as-success", format!("write-callback|style{style}|once{once}"), format!("the write callback returned a failure code {} time(s) (first at call {at}, style {style}: 1 = part stored and reported, 2 = whole length reported and nothing stored) but every C call returned success", wf.cb_failures)));
+                        }
                         // the failure must be reported unless the callback was never called that often
                         let reached = wf.image.len() < w.image.len();
                         if reached && !any_err {
@@ -629,7 +673,9 @@ impl Prop for C20 {
                     Ok(ex) => {
                         let first = model.files.keys().next();
                         let incomplete = first.is_some_and(|n| ex.got.get(n) != model.files.get(n));
-                        if ex.status == OK && incomplete {
+                        if ex.status == OK && ex.sink_failures > 0 {
+                            v.push(Violation::new("c-failure-reported-as-success", format!("file-writer|style{}|once{}", case.param("fail_style", 0), case.param("fail_once", 0)), format!("a per-file writer returned a failure code {} time(s) but extraction returned success", ex.sink_failures)));
+                        } else if ex.status == OK && incomplete {
                             v.push(Violation::new("c-failure-reported-as-success", "file-writer", "the first per-file writer failed, its file is incomplete, but extraction returned success".to_string()));
                         }
                         ctx.sig(format!("fail-file|at{}|ok{}", at.min(3), ex.status == OK));
